@@ -358,6 +358,14 @@ def check_exports(tree, start, rec, typed, nt=True, variant="to_dot", prior_abor
             for t in list(exp - got) + list(got - exp):
                 kinds.add(str(t[1]).rsplit("/", 1)[-1])
             rec.fail("rdf:triples:" + "+".join(sorted(kinds)), {"with_root": with_root, "missing": miss, "extra": extra, "start": None if start is None else f"{start.data}"})
+        elif start is None:
+            # the node-level export called on the system root without add_self: the whole tree without its root
+            ev += 1
+            g3 = set(tree.system_root.to_rdf_graph(add_self=False))
+            exp3 = {t for t in exp if t[0] != sysroot}
+            # (the node-level export names a root it writes "__root__"; none is written here)
+            if {t for t in g3 if "root" in str(t[0])} or {(t[1], t[2]) for t in g3} != {(t[1], t[2]) for t in exp3}:
+                rec.fail("rdf:system_root.to_rdf_graph(add_self=False)", {"missing": sorted(map(str, exp3 - g3))[:4], "extra": sorted(map(str, g3 - exp3))[:4]})
     assert isinstance(g, rdflib.Graph)
     # ---------------- RDF with a node_mapper that returns False for leaves ("no standard attributes for this node",
     # it adds its own triple instead): every parent->child edge must still be there -----------------------------
